@@ -25,6 +25,14 @@ static EXECS: AtomicU64 = AtomicU64::new(0);
 static OUTCOMES: StdMutex<BTreeSet<Outcome>> = StdMutex::new(BTreeSet::new());
 
 static FIRST_BAD: StdMutex<Option<String>> = StdMutex::new(None);
+
+/// Set by the orchestrator for a second run when the first one showed that the priority drawn by the helper
+/// thread before anything else happens differs from execution to execution although the source has no
+/// `static mut`: the generator is seeded from something outside the program (the clock, an address), so
+/// priority values cannot be compared between executions; everything else still is.
+fn no_prios() -> bool {
+    std::env::var("C17_NO_PRIOS").map_or(false, |v| v == "1")
+}
 struct StopExploring;
 
 /// Explores `run_once` under loom.  Results that can be judged per execution (a panic inside a thread's
@@ -51,6 +59,15 @@ fn explore(threads: u32, k: usize, serial: bool, bound: Option<usize>, cold: boo
                     }
                     drop(fb);
                     std::panic::panic_any(StopExploring);
+                }
+            }
+            let mut o = o;
+            if no_prios() {
+                // priorities are not a function of the schedule (see `no_prios`): keep what does not depend
+                // on them for the comparison of outcome SETS (everything was judged per execution above)
+                for t in o.threads.iter_mut() {
+                    t.prios.clear();
+                    t.rendered.clear();
                 }
             }
             OUTCOMES.lock().unwrap_or_else(|e| e.into_inner()).insert(o);
@@ -124,6 +141,18 @@ fn main() {
     // looking at it (the main thread draws first, before anything can interfere)
     let mains: BTreeSet<u32> = rseq.iter().chain(rpar.iter()).map(|o| o.main).collect();
     println!("MAIN_DRAW_VALUES {}", mains.len());
+    let strip = |set: BTreeSet<Outcome>| -> BTreeSet<Outcome> {
+        if !no_prios() {
+            return set;
+        }
+        set.into_iter()
+            .map(|mut o| {
+                o.main = if o.main == u32::MAX { u32::MAX } else { 0 };
+                o
+            })
+            .collect()
+    };
+    let (rseq, rpar, cseq, cpar, tseq, tpar) = (strip(rseq), strip(rpar), strip(cseq), strip(cpar), strip(tseq), strip(tpar));
     for o in rpar.iter().take(3) {
         println!("SAMPLE {}", outcome_json(o));
     }
@@ -134,6 +163,10 @@ fn main() {
     }
     for (set, reference, label, ref_capped) in [(&rpar, &rseq, "warm", c1), (&cpar, &cseq, "cold", c3)] {
         for o in set.iter() {
+            if no_prios() {
+                // judged per execution already, before the priorities were dropped
+                break;
+            }
             if let Err(m) = check_results(o, k, &solo_shape) {
                 println!("BAD_RESULTS [{label}] {} :: {}", m, outcome_json(o));
                 bad += 1;
